@@ -75,6 +75,8 @@ pub struct Profile {
     /// an array declared without initialiser may be filled element by element (structural profiles only:
     /// the other elements keep Circom's default, which the claims checked there do not depend on)
     pub elementwise_first: bool,
+    /// compound assignments use all twelve operators whatever `ops` says (structural profiles)
+    pub all_compound_ops: bool,
 }
 
 #[derive(Clone, Debug)]
@@ -119,6 +121,7 @@ impl Profile {
             call_bias: 0,
             data_ternary_chance: 0,
             elementwise_first: false,
+            all_compound_ops: false,
         }
     }
     pub fn sem(template: bool, prime: BigUint) -> Profile {
@@ -154,6 +157,7 @@ impl Profile {
             call_bias: 0,
             data_ternary_chance: 0,
             elementwise_first: false,
+            all_compound_ops: false,
         }
     }
 }
@@ -681,7 +685,7 @@ impl<'a, 'b> Gen<'a, 'b> {
                 let form = if self.p.compound && was_assigned { self.t.below(4) } else { 0 };
                 let st = match form {
                     1 => {
-                        let op = match self.p.ops {
+                        let op = match if self.p.all_compound_ops { OpsLevel::All } else { self.p.ops } {
                             OpsLevel::Trivial => *self.t.pick(&[Op::Add, Op::Sub]),
                             OpsLevel::Arith => *self.t.pick(&[Op::Add, Op::Sub, Op::Mul]),
                             OpsLevel::All => *self.t.pick(&[
@@ -1310,6 +1314,25 @@ impl<'a, 'b> Gen<'a, 'b> {
         self.in_loop -= 1;
         self.assigned = before;
         self.scopes.pop();
+        if self.t.chance(45) {
+            // the other `for` form of the grammar: `var i; for (i = 0; ..; ..)` (kept in a block of its own)
+            let Stmt::Decl { id: decl_id, kind, mut syms, init_op } = init else { unreachable!() };
+            let zero = syms[0].init.take().expect("counter initialiser");
+            let assign = Stmt::Assign {
+                id: self.ids.next(),
+                lhs: Expr::Var { id: self.ids.next(), name: name.clone(), access: vec![] },
+                op: AssignOp::Var,
+                rhs: zero,
+                reversed: false,
+            };
+            if !self.p.uninit_decl {
+                // profiles without uninitialised declarations still initialise the counter at its declaration
+                syms[0].init = Some(self.small_literal(0));
+            }
+            let decl = Stmt::Decl { id: decl_id, kind, syms, init_op };
+            let for_stmt = Stmt::For { id, init: Box::new(assign), cond, step: Box::new(step), body: Box::new(body) };
+            return Stmt::Block { id: self.ids.next(), stmts: vec![decl, for_stmt] };
+        }
         Stmt::For { id, init: Box::new(init), cond, step: Box::new(step), body: Box::new(body) }
     }
 
